@@ -94,4 +94,12 @@ PROPS = {
         {"id": "C17", "quick_n": 3000, "thorough_n": 400000, "quick_s": 60, "thorough_s": 900, "timeout": 120, "mem_gb": 4,
          "rule": "one corruption (bit flip, truncation, inflated 32/16-bit count, wrong label, zeroed run, trailing garbage; raw or inside the s2 frame) of one stored object / packfile / encoded stream, read through every reader that reaches it; every case non-trivial; distinct by plan hash"},
     ]},
+    "C06": {"level": "exploration", "profiles": [
+        {"id": "C06", "quick_n": 640, "thorough_n": 60000, "quick_s": 60, "thorough_s": 900, "timeout": 120,
+         "rule": "field extremes through `wrgl commit` (message/name/email 0..70000 bytes, clock up to 2292 and zone offsets incl. half hours, rows crossing 64 KiB, 1..256 rows) and the packfile length header over varint boundaries up to 64 bits; error at write time with the branch untouched, or read back equal; non-trivial = a field at/over a limit, a clock/zone extreme or a >=30000-byte cell; distinct by plan hash"},
+    ]},
+    "C03": {"level": "exploration", "profiles": [
+        {"id": "C03", "cpu": 4, "quick_n": 1200, "thorough_n": 150000, "quick_s": 60, "thorough_s": 900, "timeout": 120,
+         "rule": "boundary-size tables (0..766 rows, keyed/keyless, all-empty row) x producers (ingest under seeded schedule, merge commit, wire receipt, doctor resolve of a planted duplicate): structural invariants + doctor.Diagnose reports nothing; non-trivial = >=255 rows or producer != ingest; distinct by plan hash"},
+    ]},
 }
